@@ -104,6 +104,19 @@ def one_case(args):
         one_sys = fp[0].f["system_id"]
         for p in fp:
             p.f["system_id"] = one_sys
+        # extreme identifiers: the first packet's link mapped to 255 / 0 (for all its packets), more than 24 / all 256 distinct link ids, hundreds of FEE ids
+        ex = rng.random()
+        if ex < 0.15:
+            l0, v = fp[0].f["link_id"], rng.choice([255, 255, 0])
+            for p in fp:
+                if p.f["link_id"] == l0:
+                    p.f["link_id"] = v
+                elif p.f["link_id"] == v:
+                    p.f["link_id"] = l0
+        elif ex < 0.25 and npk >= 30:
+            K = rng.choice([25, 40, 256])
+            for i, p in enumerate(fp):
+                p.f["link_id"] = (i * 7) % K
         data = frame.serialize(fp)
         pkts = [(p.f, len(p.payload)) for p in fp]
     flt = None
